@@ -56,7 +56,7 @@ func TestC14Stress(t *testing.T) {
 		misc := rapid.IntRange(0, 2).Draw(t, "misc")
 		w, err := stack.Build(spec, nNodes, 0)
 		if err != nil {
-			t.Fatalf("harness: %v: %v", spec, err)
+			t.Fatalf("%s", ev.Tag(fmt.Sprintf("harness: %v: %v", spec, err)))
 		}
 		desc := fmt.Sprintf("%v nodes=%d tellers=%d askers=%d receivers=%d servers=%d misc=%d", spec, nNodes, tellers, askers, receivers, servers, misc)
 		led := ledger.New()
@@ -257,7 +257,7 @@ func TestC14ChannelClose(t *testing.T) {
 		spec := stack.Spec{Base: "mem", BaseMTU: 1500, QueueLen: q}
 		w, err := stack.Build(spec, 2, 0)
 		if err != nil {
-			t.Fatalf("harness: %v", err)
+			t.Fatalf("%s", ev.Tag(fmt.Sprintf("harness: %v", err)))
 		}
 		a, b := w.Nodes[0], w.Nodes[1]
 		ids := []string{"1", "2", "3"}[:nch]
